@@ -34,6 +34,12 @@ def handleChooseX (j : Json) : R Json := do
   let ws ← listOf ratOf (← getF j "ws")
   pure (Json.mkObj [("p", ratsToJson (chooseWeightsX ws))])
 
+/-- the translated loop-ending comparisons on a pair of numbers -/
+def handleLoopsX (j : Json) : R Json := do
+  let a ← ratOf (← getF j "a")
+  let b ← ratOf (← getF j "b")
+  pure (Json.mkObj [("grow", Json.bool (decide (growStopsX a b))), ("sys", Json.bool (decide (sysContinuesX a b)))])
+
 def handleGen (j : Json) : R Json := do
   let els ← listOf elementOf (← getF j "els")
   let ev ← listOf eventOf (← getF j "ev")
@@ -258,6 +264,7 @@ def handle (j : Json) : R Json := do
   | "CPROB" => handleCProb j
   | "TABLES" => handleTables j
   | "CHOOSEX" => handleChooseX j
+  | "LOOPSX" => handleLoopsX j
   | _ => throw s!"unknown op {op}"
 
 def handleLine (line : String) : String :=
